@@ -10,6 +10,7 @@ import DimModel.Lib.GetSet
 import DimModel.Lib.DatasetOps
 import DimModel.Proofs.C14
 import DimModel.Proofs.C14Ops
+import DimModel.Proofs.C14Ops2
 namespace DimModel
 open Lib
 
@@ -1033,6 +1034,149 @@ example : (∃ out, concatenateDs 0 [exDs, exDs4] (.name "y") = .ok out ∧ out.
     exact ⟨out, hout, h1, h3, s, r, hs, hr, hsame⟩
   · exact concatenateDs_lacking 0 exDs [exDs4] "x" (by decide) hnd "b" exB (by simp [exDs])
       (by simp [exB, DimArray.dims, exY])
+
+/-! #### unary operators (`Dataset._unary_op`), reflected operators with a scalar (`Dataset._rbinary_op`) -/
+
+/-- ONE DIMARRAY OPERATION ON EVERY VARIABLE, generic form of the loop `res = Dataset(); for k in self.keys():
+res[k] = g(self[k])` (`mapVarsDs`; `_binary_op` with a scalar, `_rbinary_op`, `_unary_op` are instances): for an
+operation `g` that returns the axes of its argument and values of the announced shape, on a good Dataset every
+variable `k` of the result IS `g(self[k])`, same keys, the same axis objects, no Dataset metadata; the result is
+again a good Dataset. -/
+theorem mapVarsDs_spec {α : Type} (g : DimArray α → Except Err (DimArray α)) (self out : Ds α) (hg : GoodDs self)
+    (hax : ∀ v r, g v = .ok r → r.axes = v.axes)
+    (hshape : ∀ kv ∈ self.vars, ∀ r, g kv.2 = .ok r → r.vals.shape = r.axes.map (·.size))
+    (h : mapVarsDs g self = .ok out) :
+    out.keys = self.keys ∧ out.attrs = [] ∧ GoodDs out ∧ (∀ e, e ∈ out.axes ↔ e ∈ self.axes) ∧
+    ∀ k v, (k, v) ∈ self.vars → ∃ r, (k, r) ∈ out.vars ∧ g v = .ok r := by
+  obtain ⟨hk, hat, hsh, hown, hv, haxs⟩ := mapVarsDs_core g self out hg.2.2.1
+    (fun kv hkv => (hg.2.2.2 kv hkv).1) hax h
+  have haxU : ∀ e ∈ out.axes, e ∈ self.axes := by
+    intro e he
+    obtain ⟨kv, hkv, hm⟩ := haxs e he
+    exact hg.2.1 kv hkv e hm
+  -- the stored variable is the per-variable result itself
+  have hv' : ∀ k v, (k, v) ∈ self.vars → ∃ r, (k, r) ∈ out.vars ∧ g v = .ok r := by
+    intro k v hkv
+    obtain ⟨r, res, hr, hop, hsame⟩ := hv k v hkv
+    have : r = res := sameVar_own self.axes hg.1.2.2 r res hsame
+      (fun a ha => haxU a (hown (k, r) hr a ha))
+      (fun a ha => hg.2.1 (k, v) hkv a ((hax v res hop) ▸ ha))
+    exact ⟨r, hr, this ▸ hop⟩
+  have hknd : out.keys.Nodup := hk ▸ hg.2.2.1
+  refine ⟨hk, hat, ⟨hsh, hown, hknd, ?_⟩, ?_, hv'⟩
+  · intro kv hkv
+    obtain ⟨v0, hkv0⟩ := var_of_key (l := self.vars) hk hkv
+    obtain ⟨r, hr, hop⟩ := hv' kv.1 v0 hkv0
+    have : r = kv.2 := value_unique hknd hr hkv
+    rw [this] at hop
+    have h1 := hax v0 kv.2 hop
+    refine ⟨?_, hshape (kv.1, v0) hkv0 kv.2 hop, ?_⟩
+    · show (kv.2.axes.map (·.name)).Nodup
+      rw [h1]; exact (hg.2.2.2 _ hkv0).1
+    · rw [h1]; exact (hg.2.2.2 _ hkv0).2.2
+  · intro e
+    refine ⟨haxU e, ?_⟩
+    intro he
+    obtain ⟨kv, hkv, hm⟩ := (axes_iff_used hg.1 hg.2.1 e).1 he
+    obtain ⟨r, hr, hop⟩ := hv' kv.1 kv.2 hkv
+    exact hown _ hr e ((hax kv.2 r hop) ▸ hm)
+
+/-- UNARY OPERATORS (`-ds`, `+ds`, `~ds`: `Dataset._unary_op`).  On a good Dataset the call always succeeds; every
+variable `k` of the result IS `func(self[k])` (`Lib.unaryOp`, the mirror of `DimArray._unary_op`: the function on the
+values, the axes of the variable - which are the Dataset's -, no variable metadata), same keys in the same order, the
+same axis objects, no Dataset metadata; the result is again a good Dataset. -/
+theorem unaryOpDs_spec {α : Type} (u : α → α) (self : Ds α) (hg : GoodDs self) :
+    ∃ out, unaryOpDs u self = .ok out ∧ out.keys = self.keys ∧ out.attrs = [] ∧ GoodDs out ∧
+      (∀ e, e ∈ out.axes ↔ e ∈ self.axes) ∧ ∀ k v, (k, v) ∈ self.vars → (k, unaryOp u v) ∈ out.vars := by
+  obtain ⟨out, hout⟩ := mapVarsDs_ok (fun v => .ok (unaryOp u v)) self hg.2.1 hg.1.2.2
+    (fun kv _ => ⟨_, rfl, rfl⟩)
+  obtain ⟨h1, h2, h3, h4, h5⟩ := mapVarsDs_spec (fun v => .ok (unaryOp u v)) self out hg
+    (fun v r hr => by cases hr; rfl)
+    (fun kv hkv r hr => by cases hr; exact (hg.2.2.2 kv hkv).2.1) hout
+  refine ⟨out, hout, h1, h2, h3, h4, ?_⟩
+  intro k v hkv
+  obtain ⟨r, hr, he⟩ := h5 k v hkv
+  cases he
+  exact hr
+
+/-- SCALAR op DATASET for the operators that do not commute (`3 - ds`, `2 / ds`, `2 // ds`, `2 ** ds`:
+`Dataset._rbinary_op`) on a good Dataset: every variable `k` of the result IS `scalar op self[k]` (`Lib.operationNd`
+with `flip = true`: the scalar is the LEFT argument of the function; the stored variable keeps the axes of `self[k]`,
+which are the Dataset's), same keys, the same axis objects, no Dataset metadata (and, as for DimArrays, no variable
+metadata); the result is again a good Dataset. -/
+theorem rbinaryOpDs_scalar_spec {α : Type} (f : α → α → α) (self out : Ds α) (c : α) (hg : GoodDs self)
+    (h : rbinaryOpDs f self (.scalar c) = .ok out) :
+    out.keys = self.keys ∧ out.attrs = [] ∧ GoodDs out ∧ (∀ e, e ∈ out.axes ↔ e ∈ self.axes) ∧
+    ∀ k v, (k, v) ∈ self.vars → ∃ r, (k, r) ∈ out.vars ∧ operationNd f v (scalarNd c) true = .ok r :=
+  mapVarsDs_spec (fun v => operationNd f v (scalarNd c) true) self out hg
+    (fun v r hr => (operationNd_axes f v r _ _ hr).1)
+    (fun kv _ r hr => (operationNd_axes f kv.2 r _ _ hr).2.2.2) h
+
+/-- `Dataset._rbinary_op` with anything but a scalar on the left: AssertionError -/
+theorem rbinaryOpDs_other {α : Type} (f : α → α → α) (self o : Ds α) :
+    rbinaryOpDs f self .other = .error .assertion ∧ rbinaryOpDs f self (.ds o) = .error .assertion := ⟨rfl, rfl⟩
+
+/-- THE SIDE OF THE SCALAR MATTERS: `10 - ds` is not `ds - 10` (the reflected operator may not be computed by the
+plain one) -/
+theorem rbinaryOpDs_not_binaryOpDs :
+    (rbinaryOpDs (· - ·) exDs (.scalar 10)).toOption.map (fun o => (o.get? "b").map fun v => v.vals.get [0]) = some (some 3) ∧
+    (binaryOpDs 0 (· - ·) exDs (.scalar 10)).toOption.map (fun o => (o.get? "b").map fun v => v.vals.get [0]) = some (some (-3)) := by
+  decide
+
+/-- `unaryOpDs_spec` on the concrete Dataset: `-exDs` holds `-a` and `-b` -/
+example : ∃ out, unaryOpDs (fun x : Int => -x) exDs = .ok out ∧ out.keys = ["a", "b"] ∧ GoodDs out ∧
+    ("a", unaryOp (fun x : Int => -x) exA) ∈ out.vars ∧ ("b", unaryOp (fun x : Int => -x) exB) ∈ out.vars := by
+  obtain ⟨out, hout, h1, _, h3, _, h5⟩ := unaryOpDs_spec (fun x : Int => -x) exDs exDs_good
+  exact ⟨out, hout, h1, h3, h5 "a" exA (by simp [exDs]), h5 "b" exB (by simp [exDs])⟩
+
+/-- `rbinaryOpDs_scalar_spec` on the concrete Dataset: `10 - exDs` -/
+example : ∃ out, rbinaryOpDs (· - ·) exDs (.scalar 10) = .ok out ∧ out.keys = ["a", "b"] ∧ GoodDs out ∧
+    ∃ r, ("a", r) ∈ out.vars ∧ operationNd (· - ·) exA (scalarNd 10) true = .ok r := by
+  obtain ⟨out, hout⟩ := okKeys_some (r := rbinaryOpDs (· - ·) exDs (.scalar 10)) (ks := ["a", "b"]) (by decide)
+  obtain ⟨h1, _, h3, _, h5⟩ := rbinaryOpDs_scalar_spec (· - ·) exDs out 10 exDs_good hout
+  exact ⟨out, hout, h1, h3, h5 "a" exA (by simp [exDs])⟩
+
+/-! #### stack_ds / concatenate_ds with align=True (`DSV.stackDsA`, `DSV.concatenateDsA`) -/
+
+/-- without align the extended mirrors are the round-5 mirrors -/
+theorem stackDsA_noalign {α : Type} [Inhabited α] (nan : α) (datasets : List (Ds α)) (axis : Option String)
+    (keys : List Label) (kk : Kind) (join : Join) (sort : Bool) :
+    stackDsA nan datasets axis keys kk false join sort = stackDs nan datasets axis keys kk := by
+  unfold stackDsA stackDs
+  cases checkStackAxis axis (getDims (datasets.map (·.axes))) <;> rfl
+
+theorem concatenateDsA_noalign {α : Type} (nan : α) (datasets : List (Ds α)) (axis : DimKey) (join : Join)
+    (sort : Bool) : concatenateDsA nan datasets axis false join sort = concatenateDs nan datasets axis := rfl
+
+/-- STACK_DS with align=True.  When `stack_ds(datasets, axis, keys, align=True, join=, sort=)` succeeds: the new
+dimension `name` passed `_check_stack_axis` on the dimensions of the Datasets AS GIVEN, the alignment of the Datasets
+(`alignDs`: `align(datasets, strict=True, join, sort)`, i.e. `Dataset.reindex_axis` of every Dataset onto the common
+axis of every dimension) succeeded with `aligned`, and the result IS `stack_ds(aligned, name, keys)` without align -
+so that `stackDs_spec` applies to it: every variable `k` is `stack([ds[k] for ds in aligned], axis=name, keys)`, keys
+of the first Dataset, shared own axes. -/
+theorem stackDsA_spec {α : Type} [Inhabited α] (nan : α) (datasets : List (Ds α)) (axis : Option String)
+    (keys : List Label) (kk : Kind) (join : Join) (sort : Bool) (out : Ds α)
+    (h : stackDsA nan datasets axis keys kk true join sort = .ok out) :
+    ∃ name aligned, checkStackAxis axis (getDims (datasets.map (·.axes))) = .ok name ∧
+      alignDs nan datasets join none sort true = .ok aligned ∧
+      stackDs nan aligned (some name) keys kk = .ok out := by
+  replace h : (checkStackAxis axis (getDims (datasets.map (·.axes))) >>= fun name =>
+      alignDs nan datasets join none sort true >>= fun aligned => stackDsBody nan name aligned keys kk) = .ok out := h
+  cases hname : checkStackAxis axis (getDims (datasets.map (·.axes))) with
+  | error e => rw [hname] at h; cases h
+  | ok name =>
+    rw [hname] at h
+    cases hal : alignDs nan datasets join none sort true with
+    | error e =>
+      replace h : (alignDs nan datasets join none sort true >>= fun aligned =>
+        stackDsBody nan name aligned keys kk) = .ok out := h
+      rw [hal] at h; cases h
+    | ok aligned =>
+      replace h : (alignDs nan datasets join none sort true >>= fun aligned =>
+        stackDsBody nan name aligned keys kk) = .ok out := h
+      rw [hal] at h
+      replace h : stackDsBody nan name aligned keys kk = .ok out := h
+      exact ⟨name, aligned, rfl, rfl, stackDsBody_stackDs nan name aligned keys kk out h⟩
 
 end DSV
 
